@@ -10,9 +10,14 @@
                    (2 seed len)  Decrypt(lcg seed len)
             (1 key iv seed len)                            salsa20 (keystream is an oracle table)
             (2 seed len)                                   none
+            (3 name key iv ((seed len) ...))               a cipher made by the factory: messages
+                                                           encrypted in order, decrypted in reverse order
    observed = (panicked (out ...))        for 0
               (keystream enc dec)         for 1   (dec = Decrypt(enc) on a second instance)
-              (enc dec)                   for 2 *)
+              (enc dec)                   for 2
+              (panicked ((enc dec ref) ...))  for 3   (ref = the stock implementation's output:
+                                                       crypto/cipher CFB with the first IV block /
+                                                       salsa20.XORKeyStream / identity; an oracle table) *)
 From Coq Require Import ZArith NArith List Bool Arith.
 From FV Require Import Lib.Sx C16.Model.
 Import ListNotations.
@@ -96,6 +101,19 @@ Fixpoint corr_outs (i : nat) (m o : list (list N)) : verdict :=
   | _, _ => VMismatch 2
   end.
 
+(* factory-made real ciphers: only the property, against the oracle table *)
+Fixpoint prop_factory (specs obs : list sx) : verdict :=
+  match specs, obs with
+  | [], [] => VOk
+  | SList [SInt seed; SInt len] :: specs', SList [SBytes enc; SBytes dec; SBytes ref] :: obs' =>
+      let m := lcg seed len in
+      vjoin (vjoin (check_that (nlist_eqb enc ref) (VPropFail 1))
+                   (vjoin (check_that (nlist_eqb dec m) (VPropFail 2))
+                          (check_that ((length enc =? length m) && (length dec =? length m)) (VPropFail 3))))
+            (prop_factory specs' obs')
+  | _, _ => VBad
+  end.
+
 Definition check (c : sx) : verdict :=
   match c with
   | SList [SList [SInt 0%Z; SInt bs; SInt mul; SBytes key; SBytes iv; SBytes eb; SBytes db; SList ops];
@@ -124,5 +142,7 @@ Definition check (c : sx) : verdict :=
       vjoin (check_that (nlist_eqb enc m && nlist_eqb dec m) (VPropFail 6))
             (vjoin (check_that (nlist_eqb (none_encrypt m) enc) (VMismatch 7))
                    (check_that (nlist_eqb (none_decrypt enc) dec) (VMismatch 8)))
+  | SList [SList [SInt 3%Z; SBytes _; SBytes _; SBytes _; SList specs]; SList [SInt panicked; SList obs]] =>
+      if Z.eqb panicked 1 then VPropFail 7 else prop_factory specs obs
   | _ => VBad
   end.
